@@ -52,6 +52,10 @@ pub trait Gen: Send {
     fn jump(&mut self);
     fn long_jump(&mut self);
     fn clone_box(&self) -> Box<dyn Gen>;
+    /// A duplicate made by plain copy (`let d = *g;`) if - and only if - the generator type is `Copy`
+    fn bitwise_copy_box(&self) -> Option<Box<dyn Gen>> {
+        None
+    }
     /// `Clone::clone_from`: overwrite `self` with a clone of `src` (same concrete type)
     fn clone_from_dyn(&mut self, src: &dyn Gen);
     /// None when the type has no PartialEq
